@@ -76,6 +76,14 @@ def gen(seed, tier):
         op = "adopt" if via == "adopt" else "create-service"
         payloads.append({"id": "flooder", "flavour": rng.choice(["asyncio", "trio"]), "via": "queued", "steps": [["sleep", 0.3]] + [[op, "fl%d" % i] for i in range(nflood)] + [["return", "none"]]})
         knobs["step_cap"] = 600000
+        want_hopper = True
+    else:
+        want_hopper = rng.random() < 0.15
+    if want_hopper:
+        # coroutine payloads that push short blocking calls to worker threads of their own framework:
+        # blocked thread payloads, however many, must not use up what those calls need
+        for fl_ in rng.sample(["asyncio", "trio"], rng.choice([1, 2])):
+            payloads.append({"id": "hopper-" + fl_, "flavour": fl_, "via": "queued", "steps": [["sleep", rng.choice([0.1, 1.0, 1.5])], ["hop", rng.choice([1, 3]), 0.2], ["block"]]})
     dscript += [["sleep", rng.choice([2.0, 3.0, 6.0])], ["mark", "before-shutdown"], ["shutdown"]]
     knobs["horizon"] = 60.0
     rng.shuffle(payloads)
@@ -111,6 +119,18 @@ def check(h, reason):
     for e in ev:
         if e["kind"] == "nested-segment" and e["flavour"] in ("asyncio", "trio"):
             V("C11/nested-segment/%s" % e["flavour"], "%s payload %s started or resumed while %s payload %s was between two checkpoints" % (e["flavour"], e["pid"], e["flavour"], e["inside"]))
+    # 1c. short blocking calls handed to worker threads come back promptly
+    begun = {}
+    for e in ev:
+        if e["kind"] == "hop-begin":
+            begun[(e["pid"], e["k"])] = e
+        elif e["kind"] == "hop-end":
+            b = begun.pop((e["pid"], e["k"]), None)
+            if b is not None and e["t"] - b["t"] > 1.0:
+                V("C11/thread-hop-late/%s" % specs[e["pid"]]["flavour"], "%s payload %s: a no-op on a worker thread took %.2fs" % (specs[e["pid"]]["flavour"], e["pid"], e["t"] - b["t"]))
+    for (pid_, k_), b in sorted(begun.items()):
+        if S.now - b["t"] > 1.0:
+            V("C11/thread-hop-stalled/%s" % specs[pid_]["flavour"], "%s payload %s handed a no-op to a worker thread at t=%.2f and was still waiting %.2fs later (%d thread payloads blocked)" % (specs[pid_]["flavour"], pid_, b["t"], S.now - b["t"], sum(1 for x in ev if x["kind"] == "blocking" and specs.get(x.get("pid"), {}).get("flavour") == "threading")))
     # 1. overlap detector
     for e in ev:
         if e["kind"] == "overlap" and e["flavour"] in ("asyncio", "trio"):
